@@ -444,6 +444,8 @@ def bounded(rep, tier):
         yield 'between', _ast.BetweenOperation(args=[Identifier('a'), c, Constant(9)])
         yield 'case', _ast.Case(rules=[[BinaryOperation('=', args=[Identifier('a'), Constant(0)]), c]], default=Constant(0))
         yield 'in-tuple', BinaryOperation('in', args=[Identifier('a'), _ast.Tuple(items=[c, Constant(0)])])
+        yield 'in-tuple-second', BinaryOperation('in', args=[Identifier('a'), _ast.Tuple(items=[Constant(2), c])])
+        yield 'in-tuple-mixed', BinaryOperation('not in', args=[Identifier('a'), _ast.Tuple(items=[Constant(0), Constant('z'), c, Constant(10)])])
     ctx_vals = [1.5, -5, -2.5, 7, 0.25, 12345678901234567890, 'x', "it's", True]
     lexer_cls = lrtab.load('mindsdb').Lexer
     for v in ctx_vals:
